@@ -19,6 +19,7 @@ import GqlProofs.Props.C18
 import GqlProofs.Validate.OverlapWitness
 import GqlProofs.EndToEnd.Parsed
 import GqlProofs.EndToEnd.Loaded
+import GqlProofs.EndToEnd.ParsedSchemaTree
 /-
   C08 — validation accepts exactly what the rules allow.
 
@@ -1755,8 +1756,25 @@ theorem C08_UniqueInputFieldNames_parsed {L : Nat} {inp : Bytes} {d : QueryDoc} 
     (s : Schema) : validate [uniqueInputFieldNames] s d = .ok [] ↔ Spec.inputObjectFieldUniqueness s d = true :=
   C08_UniqueInputFieldNames s d (parsed_valuesShaped hp s)
 
+/-- **C08 END TO END over SOURCE TEXTS on both sides.**  The schema sources `srcs` (the prelude and the
+    user's sources, each with its `BuiltIn` flag) are well-formed UTF-8 and `ParseSchemas` merges them
+    into `sd`; `sd` loads to `s`; the query source `inp` parses to `d`.  The tree-shape hypotheses of
+    `C08_parsed_loaded_iff_spec` are discharged by the schema parser model
+    (`Gql.EndToEnd.parseSchemas_treeHyps`).  Left: the prelude is among the sources
+    (`PreludeDeclared sd`), the recorded non-object-root finding (`rootTypesAreObjects s`), and the
+    semantic side conditions `C08SemanticHyps s d`. -/
+theorem C08_sources_iff_spec {Ls : Nat} {srcs : List (Bool × Bytes)} {sd : SchemaDoc} {s : Schema}
+    (hsrc : ∀ src ∈ srcs, Lexer.Utf8.valid src.2) (hps : Parser.parseSchemas Ls srcs = .ok sd)
+    (hl : load sd = .ok s) (hprel : PreludeDeclared sd) (hroots : Gql.Spec.rootTypesAreObjects s = true)
+    {L : Nat} {inp : Bytes} {d : QueryDoc} (hp : Parser.parseQuery L inp = .ok d) (S : C08SemanticHyps s d) :
+    validate c08Rules s d = .ok [] ↔
+      ((Spec.specVerdicts s d).filter (fun p => !c08Uncovered.contains p.1)).all (·.2) = true :=
+  have T := parseSchemas_treeHyps hsrc hps
+  C08_parsed_loaded_iff_spec hl hprel T.scalars T.enums T.names hroots hp S
+
 end EndToEnd
 
+#print axioms C08_sources_iff_spec
 #print axioms C08DocHyps_of_parsed
 #print axioms C08_parsed_loaded_iff_spec
 #print axioms C08_UniqueArgumentNames_parsed
